@@ -695,3 +695,35 @@ Definition encode_failure_g (U : tlvmsg) (T : ftable) (c : N) (v : ovalue) : opt
    its wire form is the minimal big-endian byte string of n (SerializeSize = highest
    bit / 8 + 1, at most 8192 bytes): feat_of_N k n for any width k with n < 256^k. *)
 Definition feat_of_N (k : nat) (n : N) : bytes := strip0 (be_enc k n).
+
+(* ---- default-elided records (pure-TLV gossip v2 messages: ChannelUpdate2, ChannelAnnouncement2) ----
+   AllRecords writes such a record only when a test on its value holds (`c.F.Val != defaultX`,
+   `!c.DisabledFlags.Val.IsEnabled()`, `!c.ChainHash.Val.IsEqual(genesis)`); Decode stores a
+   default when the record is absent.  Abstractly, for a record whose value is a number:
+   emit = the encoder's test, d = the decoder's default. *)
+Definition el_encode (emit : N -> bool) (v : N) : option N := if emit v then Some v else None.
+Definition el_decode (d : N) (w : option N) : N := match w with Some v => v | None => d end.
+
+(* the shape of an elision test as the translator reads it from the source *)
+Inductive etest :=
+| ENe (c : N)        (* record written iff value <> c *)
+| ENeGenesis         (* record written iff value <> mainnet genesis hash (a 32-byte constant) *)
+| EUnknown.          (* any other test: not of a shape known to mean "value <> default" *)
+
+Inductive edefault :=
+| DConst (c : N)     (* Decode stores c when the record is absent (0 = the Go zero value) *)
+| DGenesis.
+
+(* one elision site: message type, record type, encoder test, decoder default *)
+Record elision := { el_msg : N; el_type : N; el_test : etest; el_default : edefault }.
+
+Definition etest_fn (t : etest) (v : N) : bool :=
+  match t with ENe c => negb (v =? c) | _ => true end.
+
+(* encoder test and decoder default agree *)
+Definition elision_ok (e : elision) : bool :=
+  match el_test e, el_default e with
+  | ENe c, DConst d => c =? d
+  | ENeGenesis, DGenesis => true
+  | _, _ => false
+  end.
